@@ -59,6 +59,8 @@ def gen_cases(rng, tier):
         sc = rng.choice([[1, 1, 1], [1, 1, 1], [2, 1, 1], [1, 2, 2], [2, 2, 2], [3, 1, 1]])
         cases.append({'sg': sg, 'm': m, 'site24': site, 'supercell': sc, 'rfrac': rng.choice([0.3, 0.6, 0.95]), 'pseed': rng.randrange(10**6), 'npos': rng.randint(6, 20),
                       'site_lat': rng.choice(['same', 'same', 'params', 'scaled']), 'disp_first': rng.random() < 0.5})
+        if rng.random() < 0.4:
+            cases[-1]['extra_site'] = [(c + rng.choice([7, 12, 5])) % 24 for c in site]
     return cases
 
 
@@ -116,7 +118,11 @@ def impl(case):
     from pymatgen.core import Lattice
     slat = {'same': lat, 'params': Lattice.from_parameters(*lat.parameters), 'scaled': Lattice(np.array(lat.matrix) * 1.03)}[case.get('site_lat', 'same')]
     site = PeriodicSite('Li', [c / 24 for c in case['site24']], slat, label='s')
-    an = ShapeAnalyzer(sites=[site], lattice=lat, spacegroup=sg)
+    sites_in = [site]
+    if case.get('extra_site'):
+        # a second site, listed first; positions are generated around the main site only, so this one often collects nothing at all
+        sites_in = [PeriodicSite('Li', [c / 24 for c in case['extra_site']], slat, label='e'), site]
+    an = ShapeAnalyzer(sites=sites_in, lattice=lat, spacegroup=sg)
     pos1024 = _positions(case, ops)
     r = _radius(case)
     sc = case['supercell']
@@ -150,18 +156,28 @@ def impl(case):
             source_same = bool(np.array_equal(before, np.array(traj.positions)))
             again = an.analyze_trajectory(traj, supercell=tuple(sc), radius=r)
             repeat_same = bool(np.array_equal(np.array(again[0].coords), np.array(shapes[0].coords)))
-    sh = shapes[0]
+    n_shapes = len(shapes)
+    extra_points = None
+    if case.get('extra_site'):
+        if n_shapes != 2:
+            return {'n_shapes': n_shapes, 'raw': raw, 'radius': r, 'points': [], 'dists': [],
+                    'ops': [[W, [[x.numerator, x.denominator] for x in w], Wi] for W, w, Wi in ops]}
+        extra_points = int(len(np.array(shapes[0].coords).reshape(-1, 3)))
+        sh = shapes[1]
+    else:
+        sh = shapes[0]
     cart = np.array(sh.coords).reshape(-1, 3)
     frac_pts = lat.get_fractional_coords(cart) if len(cart) else np.zeros((0, 3))
     extra = {'source_same': source_same, 'repeat_same': repeat_same} if sc != [1, 1, 1] else {}
+    extra.update({'n_shapes': n_shapes, 'extra_points': extra_points})
     return {**extra, 'raw': raw, 'radius': r, 'points': (frac_pts * DEN).tolist(), 'dists': [float(d) for d in sh.distances()] if len(cart) else [],
             'ops': [[W, [[x.numerator, x.denominator] for x in w], Wi] for W, w, Wi in ops]}
 
 
-def _exact(case, out):
+def _exact(case, out, site24=None):
     """per op, per folded position: exact d2 to the symmetry image; returns (pairs within radius, near-boundary flag, images outside cell used)"""
     G = synth.gram(case['m'])
-    s = [Fr(c, 24) for c in case['site24']]
+    s = [Fr(c, 24) for c in (site24 or case['site24'])]
     sc = case['supercell']
     r = out['radius']
     pts = []
@@ -197,10 +213,16 @@ def _prep(case, out):
 def oracle(case, out):
     if 'points' not in out:
         return [('c17/harness-error', f"{out.get('error')}: {out.get('msg')} {out.get('tb', '')[-500:]}")]
+    if case.get('extra_site') and out.get('n_shapes') != 2:
+        return [('shape/number-of-shapes', f'{out.get("n_shapes")} shapes returned for 2 sites (site {case["extra_site"]}/24 listed first, then {case["site24"]}/24): results are no longer aligned with the sites')]
     pairs, near, _ = _prep(case, out)
     if near:
         return []
     fs = []
+    if case.get('extra_site') and out.get('extra_points') is not None:
+        epairs, enear, _e = _exact(case, out, case['extra_site'])
+        if not enear and len(epairs) != out['extra_points']:
+            fs.append(('shape/count', f'site {case["extra_site"]}/24 (listed first): {out["extra_points"]} points collected but {len(epairs)} (operation, position) pairs lie within the radius'))
     r = out['radius']
     if out.get('source_same') is False:
         fs.append(('shape/analysis-alters-trajectory', f'analyze_trajectory(supercell={case["supercell"]}) changed the positions of the trajectory it analysed'))
